@@ -40,6 +40,7 @@ type Spec struct {
 	AcceptErr  bool       `json:"accept_err"` // inject one transient accept error before the first connection
 	StopEarly  bool       `json:"stop_early"` // close the listener while connections are in flight
 	RealMetrics bool      `json:"real_metrics"`
+	TCPBuf     int        `json:"tcpbuf,omitempty"` // socket buffer size (small: writes block and can fail part-way)
 }
 
 func (s Spec) String() string { b, _ := json.Marshal(s); return string(b) }
@@ -80,6 +81,9 @@ func Build(s Spec, o *Obs, newMetrics func() service.ServiceMetrics) func() {
 	return func() {
 		o.Reset()
 		vw := vnet.Reset()
+		if s.TCPBuf > 0 {
+			vw.TCPBuf = s.TCPBuf
+		}
 		hk.ResetLogs()
 		keys := []*world.Key{}
 		for c := 0; c < 4; c++ {
@@ -118,10 +122,24 @@ func Build(s Spec, o *Obs, newMetrics func() service.ServiceMetrics) func() {
 			vrt.WaitUntil("target.wait-unread", c, func() bool { return c.Unread() > 0 || c.IsClosed() })
 			c.Close()
 		}
+		// a target that sends a lot and a target that reads nothing, then goes away
+		flood := func(t *world.Target, i int, c *vnet.TCPConn) {
+			hdr := make([]byte, 2)
+			io.ReadFull(c, hdr)
+			c.Write(world.Pattern(0x55, 40000))
+			t.ReadAll(i, c)
+			c.Close()
+		}
+		deaf := func(t *world.Target, i int, c *vnet.TCPConn) {
+			vrt.Sleep(2 * time.Second)
+			c.Close()
+		}
 		var tgts []*world.Target
 		for i := range s.Conns {
 			tgts = append(tgts, world.StartTarget(fmt.Sprintf("93.184.216.34:%d", 8000+i), echo))
 			tgts = append(tgts, world.StartTarget(fmt.Sprintf("93.184.216.35:%d", 8000+i), rst))
+			tgts = append(tgts, world.StartTarget(fmt.Sprintf("93.184.216.37:%d", 8000+i), flood))
+			tgts = append(tgts, world.StartTarget(fmt.Sprintf("93.184.216.38:%d", 8000+i), deaf))
 		}
 		var recordedServer []byte
 		run := func(i int, cs ConnSpec) *ConnObs {
@@ -241,6 +259,29 @@ func Build(s Spec, o *Obs, newMetrics func() service.ServiceMetrics) func() {
 				vrt.Sleep(time.Second)
 				cl.Send(more[len(wire):], 0) // arrives at the target, which closes without reading: RST
 				vrt.Sleep(time.Second)
+				cl.CloseWrite()
+				vrt.Join(rd)
+				cl.Close()
+				finish(cl)
+			case "client-abort":
+				// the target floods, the client never reads and disappears: the proxy's write to the
+				// client blocks on the full buffer and fails part-way
+				co.Want, co.WantAuth = "", true
+				wire = world.EncodeStream(key, seed, world.Addr(fmt.Sprintf("93.184.216.37:%d", 8000+i)), []byte{0, 0})
+				cl := world.Dial(from)
+				cl.Send(wire, 0)
+				vrt.Sleep(time.Second)
+				cl.Close()
+				finish(cl)
+			case "target-abort":
+				// the client uploads a lot, the target reads nothing and closes: the proxy's write to the
+				// target fails part-way
+				co.Want, co.WantAuth = "", true
+				wire = world.EncodeStream(key, seed, world.Addr(fmt.Sprintf("93.184.216.38:%d", 8000+i)), world.Pattern(7, 16000), world.Pattern(8, 16000), world.Pattern(9, 16000))
+				cl := world.Dial(from)
+				rd := vrt.Spawn("reader", func() { cl.ReadAll() })
+				cl.Send(wire, 0)
+				vrt.Sleep(5 * time.Second)
 				cl.CloseWrite()
 				vrt.Join(rd)
 				cl.Close()
